@@ -76,7 +76,7 @@ fn dna_to_text(d: u8) -> u8 {
 
 harnesses! {
     // ---- symbol maps, exhaustive
-    fn c19_q_symbol_maps [2] {
+    fn c19_q_symbol_maps [10] {
         let d = any_u8();
         assume(d < 4);
         let x = Dna::try_from_bits(d).unwrap();
@@ -87,7 +87,7 @@ harnesses! {
         assert!(Iupac::from(x).to_char() == x.to_char(), "C19.map.dna_to_iupac_letter");
         reach!("end");
     }
-    fn c19_q_text_to_dna_all_bytes [2] {
+    fn c19_q_text_to_dna_all_bytes [10] {
         // converting text bases back to DNA succeeds exactly for A, C, G, T
         let b = any_u8();
         let t = text::Dna::unsafe_from_bits(b);
@@ -107,17 +107,17 @@ harnesses! {
         }
     }
     // ---- sequence conversion
-    fn c19_q_to_iupac_o31_n2 [6] { convert!(Iupac, 31, 2, oracle::dna_to_iupac) }
+    fn c19_q_to_iupac_o31_n2 [10] { convert!(Iupac, 31, 2, oracle::dna_to_iupac) }
     fn c19_q_to_text_o5_n2 [10] { convert!(text::Dna, 5, 2, dna_to_text) }
-    fn c19_t_to_iupac_o0_n3 [6] { convert!(Iupac, 0, 3, oracle::dna_to_iupac) }
-    fn c19_q_to_iupac_empty [3] {
+    fn c19_t_to_iupac_o0_n3 [10] { convert!(Iupac, 0, 3, oracle::dna_to_iupac) }
+    fn c19_q_to_iupac_empty [10] {
         let w = any_words::<2>();
         let s = arr::<Dna, 64, 2>(w);
         let r: Seq<Iupac> = (&s[7..7]).into();
         assert!(r.len() == 0, "C19.convert.empty");
         reach!("end");
     }
-    fn c19_q_array_to_iupac_n2 [6] {
+    fn c19_q_array_to_iupac_n2 [10] {
         // From<&SeqArray> / From<SeqArray>
         let w = any_words::<1>();
         let a = arr::<Dna, 2, 1>(w);
@@ -128,12 +128,12 @@ harnesses! {
         core::mem::forget(r);
     }
     // ---- trimming: concrete representative inputs (not a universal claim)
-    fn c19_q_trim_dna_padded [8] { trim_concrete!(Dna, oracle::DNA, b"NACNN", 5) }
-    fn c19_q_trim_dna_lower_flanks [6] { trim_concrete!(Dna, oracle::DNA, b"aGt", 3) }
-    fn c19_q_trim_dna_lower_only [6] { trim_concrete!(Dna, oracle::DNA, b"ac", 2) }
-    fn c19_q_trim_dna_interior_bad [8] { trim_concrete!(Dna, oracle::DNA, b"xA-Gx", 5) }
-    fn c19_q_trim_dna_all_bad [8] { trim_concrete!(Dna, oracle::DNA, b"nx7 ", 4) }
-    fn c19_t_trim_iupac_lower_flanks [8] { trim_concrete!(Iupac, oracle::IUPAC, b"nnAC-Nn", 7) }
+    fn c19_q_trim_dna_padded [10] { trim_concrete!(Dna, oracle::DNA, b"NACNN", 5) }
+    fn c19_q_trim_dna_lower_flanks [10] { trim_concrete!(Dna, oracle::DNA, b"aGt", 3) }
+    fn c19_q_trim_dna_lower_only [10] { trim_concrete!(Dna, oracle::DNA, b"ac", 2) }
+    fn c19_q_trim_dna_interior_bad [10] { trim_concrete!(Dna, oracle::DNA, b"xA-Gx", 5) }
+    fn c19_q_trim_dna_all_bad [10] { trim_concrete!(Dna, oracle::DNA, b"nx7 ", 4) }
+    fn c19_t_trim_iupac_lower_flanks [10] { trim_concrete!(Iupac, oracle::IUPAC, b"nnAC-Nn", 7) }
     fn c19_t_trim_text_padded [12] { trim_concrete!(text::Dna, oracle::TEXT, b"xxANGx", 6) }
-    fn c19_q_trim_dna_empty [3] { let r = Seq::<Dna>::trim_u8(&[]); assert!(r.is_ok() && r.unwrap().len() == 0, "C19.trim.empty"); reach!("end"); }
+    fn c19_q_trim_dna_empty [10] { let r = Seq::<Dna>::trim_u8(&[]); assert!(r.is_ok() && r.unwrap().len() == 0, "C19.trim.empty"); reach!("end"); }
 }
